@@ -11,7 +11,10 @@ from .common import EPS, viol
 ID = "C06"
 LEVEL = "exploration"
 BATCH = 16
-RULE = ("2-4 caller tasks on ONE protocol/inverter object, each issuing 1-3 reads of distinct registers with the same "
+RULE = ("Systematic part: 2 callers, one read each, second caller starting at EVERY offset of {0, 2^-20, lat/2, lat, "
+        "tau/2, tau-2^-20, tau, tau+2^-20} x ALL fault scripts of the tier's depth over {prompt, drop, delayed just "
+        "inside the timeout, two fragments} x {udp,tcp} x keep-alive x retries {0,1,2}.  Seeded part: "
+        "2-4 caller tasks on ONE protocol/inverter object, each issuing 1-3 reads of distinct registers with the same "
         "count (validators cannot tell the answers apart); start offsets and think times from {0, 2^-20, tau/2, tau, "
         "tau+2^-20, ...}; per-transmission fault from {drop, prompt answer, delayed answer strictly inside that "
         "transmission's timeout, two fragments both inside the timeout} (the proviso of the statement); x {udp,tcp} "
@@ -30,13 +33,64 @@ LEVEL_NOTE = ("Trusted: transport model; ready-queue order is asyncio's FIFO (no
 TECHNIQUE = "deterministic simulation of concurrent callers with seeded start offsets, latencies and benign faults"
 
 N_RANDOM = {"quick": 40_000, "thorough": 3_000_000}
+SW_OFFS = ["0", "eps", "lat/2", "lat", "tau/2", "tau-eps", "tau", "tau+eps"]
+SW_FAULTS = ["ok", "drop", "delay", "frag"]
+SW_DEPTH = {"quick": 3, "thorough": 4}
+_SWEEP = {}
+
+
+def _sweep(tier):
+    if tier not in _SWEEP:
+        import itertools
+        out = []
+        for tr in ("udp", "tcp"):
+            for ka in (False, True):
+                for r in (0, 1, 2):
+                    for off in range(len(SW_OFFS)):
+                        for fs in itertools.product(range(len(SW_FAULTS)), repeat=SW_DEPTH[tier]):
+                            out.append((tr, ka, r, off, fs))
+        _SWEEP[tier] = out
+    return _SWEEP[tier]
+
+
+def warm(tier):
+    _sweep(tier)
 
 
 def n_cases(tier):
-    return N_RANDOM[tier]
+    return len(_sweep(tier)) + N_RANDOM[tier]
+
+
+def _sweep_case(tier, index):
+    tr, ka, r, off, fs = _sweep(tier)[index]
+    tau = 1.0
+    lat = DEFAULT_LATENCY
+    start = {"0": 0.0, "eps": EPS, "lat/2": lat / 2, "lat": lat, "tau/2": tau / 2, "tau-eps": tau - EPS, "tau": tau,
+             "tau+eps": tau + EPS}[SW_OFFS[off]]
+    count = 2
+    hdr = 9 if tr == "tcp" else 5
+    faults = []
+    for f in fs:
+        k = SW_FAULTS[f]
+        if k == "ok":
+            faults.append({"k": "ok"})
+        elif k == "drop":
+            faults.append({"k": "drop"})
+        elif k == "delay":
+            faults.append({"k": "ok", "d": tau - EPS})
+        else:
+            faults.append({"k": "frag", "s": hdr + 1, "d1": lat, "d2": tau / 2})
+    return {"transport": tr, "keep_alive": ka, "timeout": tau, "retries": r, "count": count, "level": "execute",
+            "callers": [{"start": 0.0, "ops": [{"reg": 0x1000 + 1, "think": 0.0}]},
+                        {"start": start, "ops": [{"reg": 0x1000 + 2, "think": 0.0}]}],
+            "faults": faults, "sweep": True}
 
 
 def make_case(tier, seed, index):
+    ns = len(_sweep(tier))
+    if index < ns:
+        return _sweep_case(tier, index)
+    index -= ns
     rnd = C.rng_for(seed, ID, index)
     tr = rnd.choice(["udp", "tcp"])
     tau = rnd.choice([0.25, 0.5, 1.0, 2.0])
